@@ -49,16 +49,7 @@ Lemma main_C13_confined_cache_blob : forall cwd dir s sum,
 Proof.
   intros cwd dir s sum Ha Hp. destruct (b_get_file_abs cwd dir s sum Ha Hp) as (hexs & Hs & H).
   exists hexs. split; [exact Hs|]. split; [|exact H].
-  destruct Hs as (_ & _ & _ & _ & Hh). apply blob_file_safe.
-  apply forallb_forall. intros c Hc. apply in_map_iff in Hc as (c0 & <- & Hc0).
-  eapply forallb_forall in Hh; [|exact Hc0]. revert Hh. unfold is_hex, is_digit, fold_byte, is_upper.
-  destruct ((65 <=? c0) && (c0 <=? 90)) eqn:E; intro Hh; [|exact Hh].
-  apply Bool.orb_true_iff. right.
-  repeat rewrite Bool.orb_true_iff in Hh. repeat rewrite Bool.andb_true_iff in *. repeat rewrite N.leb_le in *.
-  destruct E as [E1 E2]. destruct Hh as [[[H1 H2]|[H1 H2]]|[H1 H2]].
-  - exfalso. apply (N.lt_irrefl 58). eapply N.le_lt_trans; [|eapply N.le_lt_trans; [exact E1|]]; [|eapply N.le_lt_trans; [exact H2|]]; constructor.
-  - split; [apply (N.le_trans _ (65 + 32)); [discriminate|apply N.add_le_mono_r; exact H1]|apply (N.le_trans _ (70 + 32)); [apply N.add_le_mono_r; exact H2|discriminate]].
-  - exfalso. apply (N.lt_irrefl 91). eapply N.le_lt_trans; [|eapply N.le_lt_trans; [exact H1|]]; [|eapply N.le_lt_trans; [exact E2|]]; constructor.
+  destruct Hs as (_ & _ & _ & _ & Hh). apply blob_file_safe. apply forallb_is_hex_fold. exact Hh.
 Qed.
 
 Lemma main_C13_reject_or_confined : forall (root s : str),
@@ -100,17 +91,13 @@ Proof.
   - exact (m_parse_from_filepath_cases s).
   - destruct (get_blobs_path_cases root s) as [[H _]|[H|(hexs & Hs & H)]]; [left; eexists; exact H|right; left; exact H|].
     right; right. eexists. split; [|exact H]. destruct Hs as (_ & _ & _ & _ & Hh). apply blob_file_safe. exact Hh.
-  - destruct (b_parse_digest s) as [sum|e|] eqn:E; [right|left; eexists; reflexivity|].
-    + exists sum. split; [reflexivity|]. intros Ha cwd.
-      destruct (b_get_file_abs cwd root s sum Ha E) as (hexs & Hs & H). eexists. split; [|exact H].
-      apply blob_file_safe. destruct Hs as (_ & _ & _ & _ & Hh).
-      apply forallb_forall. intros c Hc. apply in_map_iff in Hc as (c0 & <- & Hc0).
-      eapply forallb_forall in Hh; [|exact Hc0]. apply (proj1 (hex_val_some c0 _ (proj2_sig (hex_val_total_sig c0 Hh)))).
-    + exfalso. unfold b_parse_digest in E. destruct (cut_first_by is_colon_or_dash s) as [[[p x] y]|]; [|discriminate].
-      destruct (negb (eqb_str p s_sha256) || negb (length y =? 64)%nat); [discriminate|]. destruct (hex_decode y); discriminate.
+  - destruct (b_parse_digest s) as [sum|e|] eqn:E; [right|left; eexists; reflexivity|exfalso; exact (b_parse_digest_no_panic s E)].
+    exists sum. split; [reflexivity|]. intros Ha cwd.
+    destruct (b_get_file_abs cwd root s sum Ha E) as (hexs & Hs & H). eexists. split; [|exact H].
+    apply blob_file_safe. destruct Hs as (_ & _ & _ & _ & Hh). apply forallb_is_hex_fold. exact Hh.
 Qed.
 
-Lemma main_C13_roundtrip_names_unrepaired_refuted : ~ C13_roundtrip_names_unrepaired_full.
+Lemma main_C13_roundtrip_names_unrepaired_refuted : ~ (forall n, n_is_valid_unrepaired n = true -> n_parse (n_string n) = n).
 Proof.
   intro H. destruct n_roundtrip_unrepaired_witness as [Hv Hn]. apply Hn. apply H. exact Hv.
 Qed.
